@@ -125,10 +125,17 @@ class CN(C):
     """the same composer with a nested config entry"""
     defaults = {'grow': {'ts': 1, 'd': 1}, 'ts2': 1}
 
+    incomplete = []     # configs that reached generate_processes without
+                        # all the nested keys
+
     def generate_processes(self, config):
-        g = config['grow']
+        g = dict(config.get('grow') or {})
+        if 'ts' not in g or 'd' not in g or 'ts2' not in config:
+            CN.incomplete.append(repr(config))
+            g.setdefault('ts', 1)
+            g.setdefault('d', -99)
         return {'p': P({'ts': g['ts'], 'd': g['d']}),
-                'q': P({'ts': config['ts2'], 'd': g['d']})}
+                'q': P({'ts': config.get('ts2', 1), 'd': g['d']})}
 
 
 def part_stepsonly(ctx, cfg):
@@ -173,6 +180,7 @@ def part_template(ctx, cfg):
     t2 = ctx.int('ts', 1, 3)
     T = ctx.int('T', 1, 3)
     path = [(), ('a',)][ctx.choice('path', 2)]
+    del CN.incomplete[:]
     composer = CN({'grow': {'d': d0}})
     before = copy.deepcopy(composer.config)
     first = composer.generate({'grow': {'d': d1}}, path=path)
@@ -195,6 +203,7 @@ def part_template(ctx, cfg):
         cl += [EQ(pp['d'], exp['d']), EQ(pq['d'], exp['d']),
                EQ(pp['ts'], exp['ts']), EQ(pq['ts'], exp['ts2'])]
     cl.append(_same_tree(composer.config, before))
+    cl.append(not CN.incomplete)       # nested entries not named survive
     stubs.reset_sink()
     over, exp, comp = seq[-1]
     fresh = CN({'grow': {'d': d0}}).generate(over, path=path)
